@@ -26,14 +26,13 @@ BASE = [("x", 7), ("y", 8)]
 SKIP = NC + NV + len(BASE)   # nodes of the prelude precede everything a text defines
 
 
-def prestate(b, text, name="t"):
+def prestate(b, text, name="t", symbols=None):
     """a parser loaded with `text` on top of an environment whose c*/v* nodes hold arbitrary truth values / integers"""
     d0 = b.new(DIPC, name="prelude")
     b.call(b.getattr(d0, "add_string"), PRELUDE)
     env = b.call(b.getattr(d0, "parse"))
     nodes = b.getattr(env, "nodes")
-    cs = [b.bool(f"c{i}") for i in range(NC)]
-    vs = [b.int(f"v{i}") for i in range(NV)]
+    cs, vs = symbols if symbols is not None else ([b.bool(f"c{i}") for i in range(NC)], [b.int(f"v{i}") for i in range(NV)])
     for i, s in enumerate(cs + vs):
         b.setattr(b.getattr(b.call(b.getattr(nodes, "__getitem__"), i), "value"), "value", s)
     d = b.new(DIPC, env, name=name)
@@ -332,6 +331,35 @@ def _(c):
     c.raises("True", label="parsing-fails")
 
 
+# a parse works on its own copy of the environment it was given: what an earlier parse of the same environment object left open (a clause
+# closed only by the end of its text, or abandoned by an error) does not decide any line of a later parse
+EARLIER = [("clause-left-open-at-the-end", f"@case {_C(0)}\n  a int = 1"), ("clause-and-else-left-open", f"@case {_C(0)}\n  a int = 1\n@else\n  a int = 2"),
+           ("nested-clauses-left-open", f"@case {_C(0)}\n  @case {_C(1)}\n    a int = 1"), ("parse-failed-inside-a-clause", f"@case {_C(0)}\n  a int = 1\n  nope = 3")]
+LATER = "g\n  size int = 3\n    !tags [\"x\"]\n  deeper\n    leaf int = 4\nk int = 2\n@case true\n  m int = 5\n@end"
+
+
+@contract(DIPC + ".parse", ["C15"], name="DIP.parse[after-an-earlier-parse-of-the-same-environment]")
+def _(c):
+    c.bound = f"{len(EARLIER)} earlier texts parsed from the same environment object (their clauses left open or the parse failing), then one later text; truth values symbolic"
+    c.chunk = 1
+    for name, first in EARLIER:
+        for ind in (0, 4):    # the later text as it is, and written with every line indented (e.g. inside an indented Python string)
+            def pre(b, first=first, ind=ind):
+                later = "\n".join(" " * ind + l for l in LATER.split("\n"))
+                d1, env, cs, vs = prestate(b, first, name="first")
+                r, exc = b.call_catching(b.getattr(d1, "parse"))
+                d = b.new(DIPC, env, name="second")
+                b.call(b.getattr(d, "add_string"), later)
+                # the same later text on an equal environment that no earlier parse has seen
+                dt, envt, cst, vst = prestate(b, later, name="second", symbols=(cs, vs))
+                twin = b.call(b.getattr(dt, "parse"))
+                return dict(args=[d], env=dict(twin=twin))
+            c.scenario(name + ("[later-text-indented]" if ind else ""), pre)
+    c.ensures("[(n, val_of(result, n)) for n in names_of(result)] == [(n, val_of(twin, n)) for n in names_of(twin)]", "same-outcome-as-on-an-environment-no-earlier-parse-has-seen")
+    c.ensures("len(names_of(result)) == %d + 4" % SKIP, "every-line-of-the-later-text-takes-effect")
+    c.no_raise()
+
+
 # =====================================================================================================================
 # General form: a prelude (parsed first; the values of some of its nodes are then replaced by symbols), a text parsed
 # on top of that environment, and what the property says about the outcome, written as small expression trees over the
@@ -426,6 +454,10 @@ def agrees(v, t, S):
     (what a tolerant comparison must satisfy)"""
     if isinstance(t, tuple) and t[0] == 'bounds':
         return ite(ev(t[1], S), v == True, True) and ite(ev(t[2], S), True, v == False)
+    if isinstance(t, tuple) and t[0] == 'none':
+        return v is None
+    if isinstance(t, tuple) and t[0] == 'about':     # a number up to the stated absolute tolerance (table constants of limited precision)
+        return v is not None and absd(v - ev(t[1], S)) <= t[2]
     w = ev(t, S)
     if isinstance(w, bool) or typename(w) == 'bool' or isinstance(w, str):
         return v == w
@@ -494,6 +526,10 @@ C16_TEXTS = [
     ("text-format-then-condition-format-fails", "nm str = Ab-1\n  !format '^[a-z]+$'\n  !condition (\"{?} != x\")", False, []),
     ("text-options-condition-format", "nm str = C-3\n  = C-3\n  = ab\n  !condition (\"{?} != x\")\n  !format '^[a-z]+$'", False, []),
     ("boolean-condition-not-equal", 'fl bool = {?f0}\n  !condition ("{?} != false")', f0, [("fl", f0)]),
+    # the node's own value used several times in one condition, compared with a node in another unit in between: every use is the same value
+    ("own-value-used-twice-around-a-comparison-in-another-unit", 'lim float = 1 m\nsz float = {?w0} cm\n  !condition ("{?} < {?lim} && {?} < 5")', ("and", ("lt", w0, 100), ("lt", w0, 5)), [("sz", w0)]),
+    ("own-value-used-twice-around-a-comparison-in-another-unit-2", 'lim float = 1 m\nsz float = {?w0} cm\n  !condition ("{?} < {?lim} && {?} > 5")', ("and", ("lt", w0, 100), ("gt", w0, 5)), [("sz", w0)]),
+    ("another-node-used-twice-around-a-comparison-in-another-unit", 'lim float = {?w1} m\nsz float = {?w0} cm\n  !condition ("{?lim} > {?} && {?lim} < 3")', ("and", ("gt", ("*", w1, 100), w0), ("lt", w1, 3)), [("sz", w0)]),
     # an imported copy carries the constraints of the original as its own: options added to the copy do not widen the original, nor vice versa
     ("options-added-to-an-imported-copy-do-not-widen-the-original", "backup\n  {?mode}\n    = 3\nmode = {?v0}", ("in", v0, [1, 2]), [("mode", v0), ("backup.mode", 1)]),
     ("options-added-to-an-imported-copy-hold-for-the-copy", "backup\n  {?mode}\n    = 3\nbackup.mode = {?v0}", ("in", v0, [1, 2, 3]), [("backup.mode", v0), ("mode", 1)]),
@@ -554,6 +590,10 @@ C18_TEXTS = [
     ("definedness", 'y bool = ("!{?a} && {?f}")\nz bool = ("!{?nope} || {?g}")', False, [("y", bf), ("z", bg)], None),
     ("string-comparison", 'y bool = ("{?name} == Tina && {?f}")\nz bool = ("{?name} == Tom || {?g}")', False, [("y", bf), ("z", bg)], None),
     ("case-condition-with-units", '@case ("{?a} > {?b}")\n  x int = 1\n@else\n  x int = 2\n@end', False, [("x", ("+", 2, ("*", -1, ("gt", ("*", wa, 100), wb))))], None),
+    # trigonometric functions take the ANGLE their argument denotes: degrees, turns and custom angular units are converted to radians
+    ("trigonometry-of-angles-in-other-units", '$unit turn = 360 deg\nang float = 30 deg\ns1 float = ("sin(30 deg)")\nc1 float = ("cos(60 deg)")\nt1 float = ("tan(45 deg)")\ns2 float = ("sin({?ang})")\n'
+     's3 float = ("sin(0.25 [turn])")\ns4 float = ("sin(1.5707963267948966 rad) + cos(0)")\ns5 float = ("2 m * sin(90 deg)") m', False,
+     [("s1", ("about", 0.5, 1e-6)), ("c1", ("about", 0.5, 1e-6)), ("t1", ("about", 1.0, 1e-6)), ("s2", ("about", 0.5, 1e-6)), ("s3", ("about", 1.0, 1e-6)), ("s4", ("about", 2.0, 1e-6)), ("s5", ("about", 2.0, 1e-6))], None),
 ]
 
 
@@ -629,7 +669,14 @@ C17_TEXTS += [
     ("boolean-modified-by-a-comparison-then-imported", 'grp.flag = ("{?a} <= {?b} && true")\nbox\n  {?grp.flag}\nq bool = {?box.flag}', False,
      [("grp.flag", _LE17), ("box.flag", _LE17), ("q", _LE17)], [], ["box.flag", "q"]),
 ]
-ARRAYS17 = {"sliced-array-injection-then-import": [("part", [20.0, 30.0]), ("box.part", [20.0, 30.0])],
+C17_TEXTS += [
+    # units with an offset: every value is converted, zero included
+    ("temperature-injected-into-a-host-in-kelvin", "tc float = {?i} Cel\nhost float = 300 K\nhost = {?tc}\ntf float = 0 degF\nh2 float = 1 K\nh2 = {?tf}\nz0 float = 0 Cel\nh3 float = 1 K\nh3 = {?z0}", False,
+     [("tc", vi), ("host", ("+", vi, 273.15)), ("h2", 255.3722222222222), ("h3", 273.15)], [("host", "K"), ("h2", "K"), ("h3", "K"), ("tc", "Cel")], ["tc", "host", "tf", "h2", "z0", "h3"]),
+    ("none-and-arrays-referenced-from-a-node-in-another-unit", "nn float = 2 cm\nnn = none\nx float = 5 m\nx = {?nn}\ndst float[4] = [0,0,0,0] m\ndst = {?sizes}", False,
+     [("x", ("none",)), ("nn", ("none",))], [("x", "m"), ("dst", "m")], ["nn", "x", "dst"]),
+]
+ARRAYS17 = {"none-and-arrays-referenced-from-a-node-in-another-unit": [("dst", [0.1, 0.2, 0.3, 0.4])], "sliced-array-injection-then-import": [("part", [20.0, 30.0]), ("box.part", [20.0, 30.0])],
             "sliced-array-injection-then-modification": [("part", [7.0, 8.0, 9.0]), ("copy", [7.0, 8.0, 9.0])],
             "text-slice": [("last", ["b", "c"]), ("g.last", ["b", "c"])]}
 N17 = len(PRE17.names)
@@ -745,6 +792,17 @@ C14_TEXTS = [
     ("function-modification-stating-a-unit", "len = (fn_w0) m", False, [("len", ("*", w0, 100))], [("len", "cm")]),
     ("expression-then-function-then-literal", 'len = ("{?w0} * 2 mm") mm\nlen = (fn_seven)\nlen = {?w1} m', False, [("len", ("*", w1, 100))], [("len", "cm")]),
     ("modifying-an-undefined-node-refused", "nope = 3", True, [], []),
+    # assignment by reference takes the CURRENT value of the referenced node, none included
+    ("reference-to-a-node-that-was-set-to-none", "n2 float = 2 m\nn2 = none\nlen = {?n2}\nk2 int = 4\nk2 = none\ncnt = {?k2}", False, [("len", ("none",)), ("cnt", ("none",)), ("n2", ("none",))], [("len", "cm")]),
+    ("reference-to-a-declared-node-set-to-none", "d float m\nd = none\nlen = 7\nlen = {?d}", False, [("len", ("none",))], [("len", "cm")]),
+    ("reference-to-a-node-that-was-none-and-got-a-value", "n2 float = none m\nn2 = {?w0}\nlen = {?n2}", False, [("len", ("*", w0, 100))], [("len", "cm")]),
+    ("temperature-assigned-in-celsius", "tk float = 300 K\ntk = {?v0} Cel\ntz float = 300 K\ntz = 0 Cel\nlv float = 1 W\nlv = 0 dBm", False, [("tk", ("+", v0, 273.15)), ("tz", 273.15), ("lv", 0.001)], [("tk", "K"), ("tz", "K"), ("lv", "W")]),
+    ("none-stating-another-unit", "len = none m\nmass = none g\ncnt = none", False, [("len", ("none",)), ("mass", ("none",)), ("cnt", ("none",))], [("len", "cm"), ("mass", "kg")]),
+    ("none-stating-a-unit-of-another-dimension-refused", "len = none s", True, [], []),
+    # arrays are values too: converted element by element; integer nodes keep integers
+    ("array-in-another-unit", "arr float[2] = [1,2] cm\narr = [3,4] m\nia int[2] = [1,2] m\nia = [3,4] km\nsrc float[2] = [1,2] m\ndst float[2] = [0,0] cm\ndst = {?src}", False, [], [("arr", "cm"), ("ia", "m"), ("dst", "cm")]),
+    ("array-in-a-unit-of-another-dimension-refused", "arr float[2] = [1,2] cm\narr = [3,4] s", True, [], []),
+    ("integer-in-another-unit-stays-an-integer", "k2 int = 1 m\nk2 = 3 km\nk int = 1 m\nk = {?v0} km", False, [("k2", 3000), ("k", ("*", v0, 1000))], [("k2", "m"), ("k", "m")]),
     # assignments inside case blocks address the same node, however many blocks came before (the internal block number grows past one digit)
     ("inside-the-thirteenth-clause", "@case false\n  cnt = 1\n@else\n  cnt = 2\n@end\n" * 4 + "@case true\n  len = {?w0} m\n  mass float = 5 g\n@end", False,
      [("len", ("*", w0, 100)), ("cnt", 2), ("mass", 0.005)], [("len", "cm"), ("mass", "kg")]),
@@ -759,6 +817,15 @@ def type_of(env, name):
     return None if n is None else (n.keyword, int(n.precision) if n.keyword in ('int', 'float') else None, n.unsigned if n.keyword == 'int' else None)
 
 
+ARRAYS14 = {"array-in-another-unit": [("arr", [300.0, 400.0]), ("ia", [3000, 4000]), ("dst", [100.0, 200.0])]}
+INTS14 = {"integer-in-another-unit-stays-an-integer": ["k2", "k"], "array-in-another-unit": ["ia"]}
+
+
+@spec
+def is_integral(v):
+    return all([typename(x) == 'int' for x in v]) if isinstance(v, list) else typename(v) == 'int'
+
+
 @contract(DIPC + ".parse", ["C14"], name="DIP.parse[assignments]")
 def _(c):
     c.bound = f"{len(C14_TEXTS)} texts assigning already defined nodes again; the assigned numbers are symbolic"
@@ -766,16 +833,18 @@ def _(c):
     for name, text, refused, vals, units in C14_TEXTS:
         def pre(b, text=text, refused=refused, vals=vals, units=units):
             d, env, S = prestate2(b, PRE14, text, functions=[f for f in FUNCTIONS if f in text])
-            return dict(args=[d], env=dict(S=S, refused=refused, vals=vals, units=units, text=text))
+            return dict(args=[d], env=dict(S=S, refused=refused, vals=vals, units=units, text=text, arrays=ARRAYS14.get(name, []), ints=INTS14.get(name, [])))
         c.scenario(name, pre)
     c.raises("ev(refused, S)", label="refused-iff-type-dimension-constant-or-missing-value")
+    c.ensures("all([array_of(result, nm) == xs for nm, xs in arrays])", "arrays-converted-element-by-element")
+    c.ensures("all([is_integral(val_of(result, nm)) for nm in ints])", "integer-nodes-hold-integers")
     c.ensures("all([agrees(val_of(result, nm), t, S) for nm, t in vals])", "last-assigned-value-in-the-definition-unit")
     c.ensures("all([unit_of(result, nm) == u for nm, u in units])", "unit-of-the-first-occurrence")
     c.ensures(f"[type_of(result, nm) for nm, kw in {KEYWORDS14!r}] == [('float', 64, None), ('int', 32, False), ('bool', None, None), ('str', None, None), ('float', 32, None), ('float', 64, None), ('int', 64, True)]",
               "data-type-of-the-first-occurrence")
     c.ensures(f"len([n for n in names_of(result) if n in ('len', 'cnt', 'flag', 'txt', 'mass', 'fixed', 'big', 'd', 'n')]) == len(set([n for n in names_of(result) if n in ('len', 'cnt', 'flag', 'txt', 'mass', 'fixed', 'big', 'd', 'n')]))",
               "a-single-parameter-per-node")
-    c.ensures("all([val_of(result, nm) is None and node_of(result, nm) is not None for nm in (['len', 'cnt'] if 'none' in text else [])])", "none-is-kept-as-none")
+    c.ensures("all([val_of(result, nm) is None and node_of(result, nm) is not None for nm in (['len', 'cnt'] if text.startswith('len = none') else [])])", "none-is-kept-as-none")
 
 
 # ---- C19: the DIP text export declares every parameter with its own data type (width and sign included) -----------------------------
@@ -1067,6 +1136,22 @@ def _(c):
         return dict(args=[d], env=dict(S=S))
     c.scenario("len-2m-then-len-5m", pre)
     c.ensures("agrees(val_of(result, 'x'), ('+', ('s', 'wa'), 5), S) and agrees(val_of(result, 'y'), ('/', ('s', 'wb'), 500), S) and val_of(result, 'z') == True", "expressions-use-the-size-defined-by-this-text")
+    c.no_raise()
+
+
+# ---- C19: booleans are written as bash's 0 (true) / -1 (false) -- scalars, array elements and cells of multi-dimensional arrays alike --------
+@contract(EXB + ".parse", ["C19"], name="ExportConfigBash.parse[boolean-arrays]")
+def _(c):
+    c.bound = "one text with boolean scalars, a 1-D and a 2-D boolean array (in a group) next to an integer array"
+
+    def pre(b):
+        d0 = b.new(DIPC, name="t")
+        b.call(b.getattr(d0, "add_string"), 'run.mask bool[3] = [true,false,true]\nrun.grid bool[2,2] = [[true,false],[false,false]]\non bool = true\noff bool = false\nn int[2] = [1,2]')
+        env = b.call(b.getattr(d0, "parse"))
+        return dict(args=[b.new(EXB, env)])
+    c.scenario("boolean-scalars-and-arrays", pre)
+    c.ensures("result.split('\\n') == ['export RUN_MASK=(\"0\" \"-1\" \"0\")', 'declare -A RUN_GRID', 'RUN_GRID[0,0]=0', 'RUN_GRID[0,1]=-1', 'RUN_GRID[1,0]=-1', 'RUN_GRID[1,1]=-1', "
+              "'export RUN_GRID', 'export ON=0', 'export OFF=-1', 'export N=(\"1\" \"2\")']", "true-is-0-and-false-is-minus-1-everywhere")
     c.no_raise()
 
 
